@@ -53,10 +53,11 @@ class _Tagged(str):
 def value_pool(ns, P):
     C = ns[f"{P}Color"]
     n0, n1, fz, l0 = ns[f"{P}N0"](v=1), ns[f"{P}N1"](v=2, w="w"), ns[f"{P}Fz"](v=3), ns[f"{P}L0"](v=4)
+    coll0, coll1 = ns[f"{P}Coll"](), ns[f"{P}Coll"](items=(ns[f"{P}N0"](v=9),))
     # values equal to literal members but built at run time (other objects than the constants in the annotation)
     built = ["".join(["alpha", "-", "beta"]), int("65536"), "".join(["alpha", "-", "bet"]), int("65537")]
     # instances of subclasses of int / str (an IntEnum member, a user's own int and str subclasses): they are ints / strs
-    built += [_IntE.SEVEN, _Port(8080), _Tagged("sub")]
+    built += [_IntE.SEVEN, _Port(8080), _Tagged("sub"), coll0, coll1]
     base = [True, False, 0, 1, 2, 1.5, "", "x", "a", None, C.RED, C.GREEN, n0, n1, fz, l0] + built
     pool = list(base)
     pool.append(())
@@ -92,7 +93,7 @@ def run_shard(ctx):
     U = Universe(f"verif_c13_{P}", [], prelude_extra=AG.PRELUDE.replace("{P}", P) + AG.POSTLUDE.replace("{P}", P))
     U.exec()
     ns = U.module.__dict__
-    env = {"Color": ns[f"{P}Color"], "N0": ns[f"{P}N0"], "N1": ns[f"{P}N1"], "Fz": ns[f"{P}Fz"], "L0": ns[f"{P}L0"]}
+    env = {"Color": ns[f"{P}Color"], "N0": ns[f"{P}N0"], "N1": ns[f"{P}N1"], "Fz": ns[f"{P}Fz"], "L0": ns[f"{P}L0"], "Coll": ns[f"{P}Coll"]}
     pool = value_pool(ns, P)
     ctx.extra["accepted_d1"] = len(d1)
     ctx.extra["pool_size"] = len(pool)
